@@ -17,7 +17,7 @@ import os
 
 from common import MachineryFailure
 
-CHUNK = 4000
+CHUNK = 2500
 # proposed repairs (fixes/C07-*.patch) already committed to the tree under test: the transcription (T) follows them.
 # Names: "det", "einsum", "intersect1d", "methods".  P never depends on this.
 TREE_FIXES = ("det", "einsum", "intersect1d", "methods")  # /repo HEAD carries these repairs (fix: commits 624838b..5b37fc0)
@@ -42,15 +42,27 @@ def _strip(c):
 
 
 def _validate(ck, cases, obs, label):
+    import concurrent.futures as cf
+
     recs = [{"c": _strip(c), "o": o} for c, o in zip(cases, obs)]
-    npf = 0
-    for off in range(0, len(recs), CHUNK):
+    offs = list(range(0, len(recs), CHUNK))
+
+    def one(off):
         part = recs[off : off + CHUNK]
         path = ck.write_json(f"obs_{label}_{off}.json", part)
         res = ck.tlc("Trace_C07", env={"OBS": path}, workers=1, coverage=False, label=f"trace-validation {label} [{off}:{off + len(part)}]", timeout=1800)
         if res.distinct != len(part) + 1:
             raise MachineryFailure(f"trace validation consumed {res.distinct} states, expected {len(part) + 1}")
-        ck.validated(len(part))
+        return off, len(part), res
+
+    # independent chunks: validated by concurrent TLC runs, verdicts recorded in chunk order (deterministic)
+    from common import NCPU
+
+    with cf.ThreadPoolExecutor(max_workers=max(1, min(NCPU, len(offs)))) as ex:
+        results = list(ex.map(one, offs))
+    npf = 0
+    for off, n, res in results:
+        ck.validated(n)
         if os.environ.get("C07_DUMP"):  # development aid: every P-FAIL / T-FAIL record, one JSON per line
             with open(os.environ["C07_DUMP"], "a") as fh:
                 for r in res.records:
